@@ -10,9 +10,10 @@ Case kinds
   ctm_text  read_ctm of foreign files (unsorted, confidence column, comments, bad lines)
   tg        write_textgrid (file, path; every option) -> bytes vs model; read_textgrid back
   tok       transcript_to_token -> rows vs model; token_to_transcript back
-Two findings have an as-coded and a repaired model (DESIGN 2.2): K5 (write_textgrid path drops
-point_tier/precision) and the string sort of read_textgrid; the implementation must agree with one
-of the two on ALL discriminating cases of a run.
+Known finding K5 (write_textgrid given a path drops point_tier/precision) has an as-coded and a
+repaired model (DESIGN 2.2); the implementation must agree with one of the two on ALL
+discriminating cases of a run.  (read_textgrid's former string sort is repaired in /repo: the model
+sorts numerically and stably; Model.StringSort documents the old behaviour.)
 """
 import io
 import json
@@ -25,13 +26,14 @@ from vlib import cb, cl, clz, cn, co, cp, cq, cz, coq_eval_bools, coq_eval_print
 IMPORTS = "From PV Require Import C11.Model C11.Spec.\nLocal Open Scope Z_scope.\n"
 EXN = {"OSError": "IOError", "ValueError": "ValueError", "KeyError": "KeyError",
        "IndexError": "IndexError", "TypeError": "TypeError"}
+CORR = "corr:C11"
 THEOREMS = {
     "trn": ["c11_trn_line_roundtrip", "c11_trn_roundtrip", "c11_trn_path_eq_file"],
     "trn_text": ["c11_trn_roundtrip"],
     "trn_pool": ["c11_chunked_read_eq_serial", "c11_read_trn_workers_irrelevant"],
     "ctm": ["c11_ctm_roundtrip_up_to_order", "c11_ctm_wc2utt_bijective"],
     "ctm_text": ["c11_ctm_roundtrip_up_to_order"],
-    "tg": ["c11_textgrid_roundtrip_to_precision", "c11_path_eq_file_refuted", "c11_path_eq_file_when_defaults"],
+    "tg": ["c11_textgrid_roundtrip_to_precision", "c11_textgrid_fill_tiles", "c11_path_eq_file_refuted", "c11_path_eq_file_when_defaults"],
     "tok": ["c11_frames_within_one_shift", "c11_token_ids_roundtrip"],
 }
 
@@ -480,8 +482,12 @@ def terms_tg(case, out):
         def rdterm(mode):
             return (f"match {coq_tg_call('write_textgrid_file', case)} with Ok f => check_read_textgrid {mode} f "
                     f"{coq_tier_id(case)} {'None' if fill is None else co(cs(fill))} {rd} | Raise _ => false end")
-        terms["A:read_textgrid = model as coded (string sort)"] = rdterm("StringSort") if rd else "false"
-        terms["R:read_textgrid = model repaired (numeric sort)"] = rdterm("NumericSort") if rd else "false"
+        terms["read_textgrid = model"] = rdterm("NumericSort") if rd else "false"
+        tr = case["tr"]
+        expressible = (all(x[1] <= x[2] for x in tr) and all(a[2] <= b[1] for a, b in zip(tr, tr[1:]))
+                       and all('"' not in x[0] and "\n" not in x[0] and "\r" not in x[0] for x in tr))
+        if expressible and out["r_file"][1] is None:
+            terms["spec: read(write tr) = tr to print precision / gaps tiled"] = tg_spec_term(case, out)
         if out["r_path"] != out["r_file"]:
             meta.append("read_textgrid: path result differs from open-file result")
     return terms, meta
@@ -941,12 +947,6 @@ def k5_signature(entry, rec):
             and rec.get("options_nondefault") is True and rec.get("path_differs_from_file") is True)
 
 
-def sort_signature(entry, rec):
-    sg = entry.get("signature", {})
-    return (sg.get("api") == "read_textgrid" == rec.get("api") and sg.get("relation") == "entries ordered as strings"
-            and rec.get("agrees_with_string_sort_model") is True and rec.get("agrees_with_numeric_sort_model") is False)
-
-
 def _shrink_cands(case):
     k = case["kind"]
     key = {"trn": "ts", "trn_pool": "ts", "ctm": "ts", "ctm_text": "segs", "tg": "tr", "tok": "tr"}.get(k)
@@ -1032,8 +1032,7 @@ def run(chk, cases=None):
             lv = dict(zip(labels, vals))
             lv["R:write_textgrid(path) = model repaired"] = (lv["R:write_textgrid(path) = model repaired"]
                                                              and lv["write_textgrid(file) = model"])
-            for fam, la, lr in (("K5", "A:write_textgrid(path) = model as coded (K5)", "R:write_textgrid(path) = model repaired"),
-                                ("sort", "A:read_textgrid = model as coded (string sort)", "R:read_textgrid = model repaired (numeric sort)")):
+            for fam, la, lr in (("K5", "A:write_textgrid(path) = model as coded (K5)", "R:write_textgrid(path) = model repaired"),):
                 if la not in lv:
                     continue
                 if lv[la] != lv[lr]:
@@ -1075,8 +1074,6 @@ def run(chk, cases=None):
         (labels, vals, meta, out), = evaluate(chk, [case], tag="jdg")
         spec_labels = [l for l in labels if l.startswith("spec:")]
         spec_ok = all(v for l, v in zip(labels, vals) if l.startswith("spec:"))
-        if case["kind"] == "tg" and "r_file" in out:
-            spec_ok = spec_ok and coq_eval_bools(chk.workdir, IMPORTS, [tg_spec_term(case, out)], tag="tgs")[0]
         rec = {"case": case, "failed_comparison": label, "comparisons": dict(zip(labels, vals)), "impl": _jsonable(out),
                "correspondence": "corr:C11:" + case["kind"], "theorems_at_stake": THEOREMS.get(case["kind"], []),
                "spec_readings_evaluated": spec_labels, "spec_accepts_impl": spec_ok}
@@ -1138,42 +1135,6 @@ def run(chk, cases=None):
                     "impl": _jsonable(out), "as_coded_failures": len(a_fail["K5"]), "repaired_failures": len(r_fail["K5"]),
                     "path_differs_from_file": out["w_path"] != out["w_file"]},
                    no_failing_input=(out["w_path"] == out["w_file"] and out["w_path_exc"] == out["w_exc"]))
-    # string sort of read_textgrid
-    if not a_fail["sort"]:
-        for idx in discr["sort"][:1]:
-            c = shrink(cases[idx], lambda cc: _sort_discriminates(chk, cc), _shrink_cands, budget=25)
-            (labels, vals, meta, out), = evaluate(chk, [c], tag="srt")
-            lv = dict(zip(labels, vals))
-            spec_ok = coq_eval_bools(chk.workdir, IMPORTS, [tg_spec_term(c, out)], tag="tgs")[0]
-            rec = {"case": c, "api": "read_textgrid",
-                   "what": "read_textgrid orders the entries it read as tuples of STRINGS ('10.000' < '9.000'): written order is not "
-                           "read back once times differ in their number of integer digits; gap filling then invents intervals",
-                   "agrees_with_string_sort_model": lv.get("A:read_textgrid = model as coded (string sort)"),
-                   "agrees_with_numeric_sort_model": lv.get("R:read_textgrid = model repaired (numeric sort)"),
-                   "spec_accepts_impl": spec_ok, "written": out.get("w_file"), "read_back": _jsonable(out.get("r_file")),
-                   "theorems": ["c11_textgrid_string_sort_refuted", "c11_textgrid_roundtrip_to_precision"]}
-            if spec_ok:
-                # the two sorts differ only in a way the round trip does not see (e.g. input not in time order)
-                chk.notes.append("string/numeric sort differ on a case whose round trip still holds")
-                chk.extra["sort_discriminating_but_spec_ok"] = True
-                # look for one the spec rejects
-                for j in discr["sort"]:
-                    o = results[j][3]
-                    if not coq_eval_bools(chk.workdir, IMPORTS, [tg_spec_term(cases[j], o)], tag="tgs")[0] and _tg_sorted(cases[j]):
-                        rec.update(case=cases[j], written=o.get("w_file"), read_back=_jsonable(o.get("r_file")), spec_accepts_impl=False)
-                        spec_ok = False
-                        break
-            if not spec_ok:
-                chk.report(rec, sort_signature)
-    elif not r_fail["sort"]:
-        chk.extra["textgrid_sort_repaired"] = True
-    else:
-        idx = ([i for i in a_fail["sort"] if i in r_fail["sort"]] or a_fail["sort"])[0]
-        out = results[idx][3]
-        spec_ok = coq_eval_bools(chk.workdir, IMPORTS, [tg_spec_term(cases[idx], out)], tag="tgs")[0]
-        chk.report({"case": cases[idx], "what": "read_textgrid agrees neither with the string-sort model nor with the numeric-sort model on all cases",
-                    "impl": _jsonable(out), "spec_accepts_impl": spec_ok, "correspondence": "corr:C11:tg",
-                    "theorems_at_stake": THEOREMS["tg"]}, no_failing_input=spec_ok)
     if replaying:
         for c, (labels, vals, meta, out) in zip(cases, results):
             print("replay:", json.dumps(c, default=str)[:300])
@@ -1181,20 +1142,6 @@ def run(chk, cases=None):
                 print("   ", "ok  " if v else "FAIL", l)
             for m in meta:
                 print("    FAIL", m)
-
-
-def _tg_sorted(case):
-    st = [x[1] for x in case["tr"]]
-    return all(a <= b for a, b in zip(st, st[1:]))
-
-
-def _sort_discriminates(chk, case):
-    if case["kind"] != "tg" or not _tg_sorted(case):
-        return False
-    (labels, vals, meta, out), = evaluate(chk, [case], tag="shs")
-    lv = dict(zip(labels, vals))
-    a, r = "A:read_textgrid = model as coded (string sort)", "R:read_textgrid = model repaired (numeric sort)"
-    return a in lv and lv[a] and not lv[r]
 
 
 def _jsonable(o):
